@@ -520,6 +520,7 @@ def main(checks):
 
 def replay(pid, path):
     """bin/check <ID> --replay <saved .sched>: rebuild the harness from /repo's working tree, run that one history, validate it."""
+    path = os.path.abspath(path)
     info_p = path + ".replay.json"
     if not os.path.exists(info_p):
         print("no replay information next to %s" % path)
